@@ -19,7 +19,7 @@ seeds)
   echo "SEEDS: $(grep -c 'rc=' /tmp/regress.seeds) reported, missed: $(grep -v 'rc=' /tmp/regress.seeds | tr '\n' ' ')";;
 refactors)
   : > /tmp/regress.refac
-  for d in refactors/R* refactors/T* refactors/V* refactors/Y* refactors/Q* refactors/B* refactors/X; do tools/try_refactor.sh $d >> /tmp/regress.refac 2>&1; done
+  for d in refactors/*/; do tools/try_refactor.sh $d >> /tmp/regress.refac 2>&1; done
   echo "REFACTORS: $(grep -c '^== .*silent' /tmp/regress.refac) silent of $(grep -c '^==' /tmp/regress.refac); alarms:"
   grep "^==" /tmp/regress.refac | grep -v silent;;
 esac; done
